@@ -87,8 +87,19 @@ class Effects(ast.NodeVisitor):
         if isinstance(n.target, ast.Name):
             self.assigned.add(n.target.id)
         else:
+            t = n.target
+            if isinstance(t, ast.Attribute) and isinstance(t.value, ast.Name) and t.value.id == self.holder:
+                # `holder.value += ...` reads what an earlier evaluation (or the caller) left in the holder
+                self.bad.append((n.lineno, "result depends on the previous content of the value holder (%s)" % ast.unparse(t)))
             self.check_store(n.target, None, n.lineno)
         self.visit(n.value)
+
+    def visit_Attribute(self, n):
+        if self.holder and isinstance(n.ctx, ast.Load) and isinstance(n.value, ast.Name) and n.value.id == self.holder \
+                and n.attr == "value":      # (type / functionID select WHICH function is asked for: inputs, not state)
+            self.bad.append((n.lineno, "reads %s: the result must not depend on what the supplied holder contained"
+                             % ast.unparse(n)))
+        self.generic_visit(n)
 
     def visit_For(self, n):
         self.check_store(n.target, None, n.lineno)
@@ -213,10 +224,18 @@ def global_state_obligations(repo, chk):
         if not rel.startswith("iOpt/problems/"):
             continue
         bad = []
+        with_calls = set()
+        for n in ast.walk(mi.tree):
+            if isinstance(n, ast.With):
+                for it in n.items:
+                    if isinstance(it.context_expr, ast.Call):
+                        with_calls.add(it.context_expr)
         for n in ast.walk(mi.tree):
             if isinstance(n, ast.Call):
                 f = n.func
                 name = f.attr if isinstance(f, ast.Attribute) else getattr(f, "id", "")
+                if name == "errstate" and n in with_calls:
+                    continue                       # `with np.errstate(...)`: restored on every exit
                 if name in GLOBAL_MUTATORS and not (name == "seed" and isinstance(f, ast.Attribute) and isinstance(f.value, ast.Name)
                                                     and f.value.id == "self"):
                     bad.append("line %d: %s" % (n.lineno, ast.unparse(f)))
